@@ -186,7 +186,7 @@ def validate_evidence(ev: dict):
 # ----------------------------------------------------------------------------
 # generic greedy minimiser
 # ----------------------------------------------------------------------------
-def minimise(mod, case: dict, v: dict, max_attempts: int = 120, wall_s: float = 90.0):
+def minimise(mod, case: dict, v: dict, max_attempts: int = 60, wall_s: float = 45.0):
     """Greedy: try each candidate simplification; keep it when the same
     (oracle) violation class persists."""
     if not hasattr(mod, "shrink_candidates"):
